@@ -2,6 +2,7 @@
 use std::io::{self, BufRead, Write};
 
 mod heap;
+mod json;
 mod num;
 mod path;
 mod prog;
@@ -15,6 +16,7 @@ fn main() {
     let f: fn(&str) -> String = match model {
         "path" => path::line,
         "heap" => heap::line,
+        "json" => json::line,
         "num" => num::line,
         _ => {
             eprintln!("usage: tvharness <model>");
